@@ -13,22 +13,29 @@ def classify(case_line):
 CFG = dict(
     imports=["From Verif.C02 Require Import Model Spec."],
     checker="check_case",
-    n=dict(quick=300, thorough=12000),
-    driver_args=lambda ctx, n, seed: ["-n", n, "-seed", seed, "-mode", "seq"],
+    n=dict(quick=280, thorough=12000),
+    driver_args=lambda ctx, n, seed: ["-n", n, "-seed", seed, "-mode", "all"],
     shard=50,
     classify=classify,
     rule="sequencer histories (8-50 callbacks over 5 IP sets x 6 members, 4 policies, 3 profiles, 4 endpoints (workload and host), "
          "3 VTEPs, 4 routes, 2 each of host metadata / pools / service accounts / namespaces / services) that satisfy the upstream "
          "contract, flushed after every callback, in batches, or only at the end, optionally followed by a partial teardown; "
-         "non-trivial = some flush emits both additions and removals and some object carried references; distinct by callback sequence",
+         "non-trivial = some flush emits both additions and removals and some object carried references; distinct by callback sequence.  "
+         "27% of the cases drive the REAL AsyncCalcGraph.loop (real sequencer, real calculation graph) over unbuffered channels with "
+         "generated mixes of update batches (callbacks run on the loop goroutine inside CalcGraph.OnUpdates), status updates "
+         "(in-sync first / late / repeated / never), flush ticks (incl. bursts against the leaky-bucket cap) and health ticks; messages "
+         "are attributed to loop iterations by a select handshake (no sleeps); non-trivial = updates, output and an input in-sync.  "
+         "13% are a contract-respecting prefix followed by one callback outside the contract: log.Panic in the real code vs None in the model",
     trusted=["Coq 8.16.1 kernel + vm_compute", "std++ (axiom-free)",
              "hand-written model coq/theories/C02/Model.v tied to felix/calc/event_sequencer.go and async_calc_graph.go by this correspondence run",
              "Go driver harness/C02 (overlay build, tag verif): its mapping of proto messages to abstract (kind,id,refs,version) messages"],
-    assumptions=["NOT tied to the code by a correspondence run: the AsyncCalcGraph loop model (Model.v loop_step / maybe_flush) behind "
-                 "c02_insync_not_early - the loop and whole-graph driver modes were not built (time); the in-sync theorem is about the model only",
-                 "not modelled: config / ready flag / encapsulation / BGP config singletons and the wireguard maps of the sequencer",
-                 "for the phase order of the code as it stands the theorems need the extra restriction Spec.no_retarget; without it the "
-                 "statement is refuted (c02_vtep_retarget_refuted, known finding); for the repaired order no restriction is needed",
+    assumptions=["not modelled: config / ready flag / encapsulation / BGP config singletons and the wireguard maps of the sequencer",
+                 "the code now has the repaired VXLAN phase order (fix b52c0b5; Model `late = true`; comments in Model.v/Spec.v that say "
+                 "'the code as it stands' for `late = false` predate that fix): no extra restriction is needed for it.  For the old order "
+                 "the theorems need Spec.no_retarget and without it the statement is refuted (c02_vtep_retarget_refuted)",
+                 "loop correspondence: sequencer callbacks are injected on the loop goroutine through the real dispatcher (an update with a "
+                 "key type the graph does not use carries the closure); the calculation graph's own reaction to status updates is real; "
+                 "ConfigUpdate / Encapsulation messages it emits are outside the model and dropped from the observed stream",
                  "upstream contract (Spec.v cb_ok, closed at flush): IP set added only when absent, removed only when present, member "
                  "added only when absent / removed only when present in an existing set; at every Flush the net upstream state is reference-closed",
                  "a route 'needs' the VTEP of DstNodeName when IpPoolType=VXLAN and it is a REMOTE_WORKLOAD route"],
@@ -44,6 +51,7 @@ MANIFEST = dict(
     text="Theorems over an executable model of EventSequencer (pending maps/sets, sent sets, Flush phase order with arbitrary "
          "intra-phase order) for all callback histories inside the upstream contract and all flush points, plus a correspondence run "
          "of model and specification oracle (closedness checked after every single message of the IMPLEMENTATION's stream) against the "
-         "real EventSequencer driven directly.",
+         "real EventSequencer driven directly, against the real AsyncCalcGraph.loop (flush throttling, in-sync forwarding) fed over "
+         "unbuffered channels, and of the real log.Panic guards against the model's None.",
     note="Trusted: Coq kernel; hand-written model tied to the code only by the correspondence run; Go driver.",
 )
